@@ -120,6 +120,7 @@ var _ utils.PriorityQueue
 //@ noalloc
 //@ ensures [metric] ret == Distance(recv, arg0, arg1)
 //@ ensures [non-negative: each of the three implementations (space.Euclidean, Manhattan, Cosine) is under contract with this clause] !(ret < 0)
+//@ ensures [never-NaN: verified for space.Cosine on all inputs; the Euclidean and Manhattan kernels are assumed not to produce NaN on finite inputs, and only vectors with finite components pass the request boundary (Dataset.checkDimension, verified) - that every stored vector is finite is kept by induction over the operations, not machine-checked as one theorem] !isnan(ret)
 //@ modifies nothing
 
 //@ func index.newHnswVertex
